@@ -204,13 +204,18 @@ fn scan_both_ways(table: &CosetTable, w: &FreeWord, start: usize)
 
 fn scan_and_connect(
     table: &mut CosetTable, w: &FreeWord, start: usize
-) {
+) -> Option<(usize, isize)>
+{
     let (head, tail, gap, c) = scan_both_ways(table, w, start);
 
     if gap == 1 {
         table.join(head, tail, c);
-    } else if gap == 0 && head != tail {
-        table.merge(head, tail);
+        Some((head, c))
+    } else {
+        if gap == 0 && head != tail {
+            table.merge(head, tail);
+        }
+        None
     }
 }
 
@@ -236,15 +241,21 @@ pub fn coset_table(
                 assert!(n < 100_000, "Reached coset table limit of 100_000");
 
                 table.join(i, n, g);
-                for w in &rels {
-                    if w.len() > 0 && w[0] == g {
-                        let c = table.canon(i);
-                        scan_and_connect(&mut table, w, c);
+
+                // scan the relators through the new edge, and through every
+                // edge deduced while doing so
+                let mut deduced = vec![(i, g)];
+                while let Some((r, h)) = deduced.pop() {
+                    for w in &rels {
+                        if w.len() > 0 && w[0] == h {
+                            let c = table.canon(r);
+                            deduced.extend(scan_and_connect(&mut table, w, c));
+                        }
                     }
-                }
-                for w in subgroup_gens {
-                    let c = table.canon(0);
-                    scan_and_connect(&mut table, w, c);
+                    for w in subgroup_gens {
+                        let c = table.canon(0);
+                        deduced.extend(scan_and_connect(&mut table, w, c));
+                    }
                 }
             }
         }
